@@ -13,7 +13,7 @@ from fsmc.design import MachineryError
 from checks import c10_ref as ref
 from checks.c10_b2b import B2BHarness, burst_space, groups_of, QUICK_LENS
 from checks.c10_conv import ConvHarness
-from checks.c10_pipe import PipeReadHarness, PIPE, pairs as pipe_pairs
+from checks.c10_pipe import PipeReadHarness, PIPE, pairs as pipe_pairs, PipeWriteHarness, PIPEW, wpairs as pipe_wpairs
 
 PROPERTY = "C10"
 LEVEL = "model_checking"
@@ -229,6 +229,7 @@ def configs(tier):
     out = [(n,) for n, (t, kw) in B2B.items() if t == "quick" or tier == "thorough"]
     out += [(n,) for n, (t, kw) in CONV.items() if t == "quick" or tier == "thorough"]
     out += [(n,) for n, (t, kw) in PIPE.items() if t == "quick" or tier == "thorough"]
+    out += [(n,) for n, (t, kw) in PIPEW.items() if t == "quick" or tier == "thorough"]
     return out
 
 
@@ -243,6 +244,9 @@ def mk(name):
     if name in PIPE:
         kw = PIPE[name][1]
         return lambda: PipeReadHarness(name, kw["cls"], kw["dwf"], kw["dwt"])
+    if name in PIPEW:
+        kw = PIPEW[name][1]
+        return lambda: PipeWriteHarness(name, kw["cls"], kw["dwf"], kw["dwt"])
     kw = CONV[name][1]
     return lambda: ConvHarness(name, kw["cls"], kw["dwf"], kw["dwt"], kw["mode"], kw["sideband"])
 
@@ -292,6 +296,13 @@ def run_config(cfg, seed, tier):
         space = pipe_pairs(kw["dwf"], kw["dwt"])
         H.set_group(space)
         _merge(tot, ex.run(), viol, failing, f"{len(space)} pairs of reads")
+        cov = H.cover_report()
+        tot["bursts"] = 2 * len(space)
+    elif name in PIPEW:
+        kw = PIPEW[name][1]
+        space = pipe_wpairs(kw["dwf"], kw["dwt"])
+        H.set_group(space)
+        _merge(tot, ex.run(), viol, failing, f"{len(space)} pairs of writes")
         cov = H.cover_report()
         tot["bursts"] = 2 * len(space)
     else:
